@@ -703,6 +703,9 @@ fn codegen_op_http_call(op: &Operation) {
         ]);
 
         g!("let mut resp = Self::serialize_http(s3_resp.output)?;");
+        g!("if let Some(status) = s3_resp.status {{");
+        g!("    resp.status = status;");
+        g!("}}");
 
         if op.name == "GetObject" {
             g!("resp.headers.extend(overridden_headers);");
